@@ -1244,6 +1244,51 @@ func (lp *LenProver) ProveAnyOnPath(d []lfact, goals []lin) bool {
 	return true
 }
 
+// ProveDNFOnPath: on path d, under every combination of helper-summary alternatives, one of the goal
+// conjunctions holds entirely (goals: a disjunction of conjunctions of `lin <= 0`).
+func (lp *LenProver) ProveDNFOnPath(d []lfact, goals [][]lin) bool {
+	base := append(append([]lfact{}, d...), lp.defs...)
+	var atoms []string
+	for a := range lp.alts {
+		atoms = append(atoms, a)
+	}
+	sort.Strings(atoms)
+	combos := [][]lfact{{}}
+	for _, a := range atoms {
+		var nc [][]lfact
+		for _, c := range combos {
+			for _, alt := range lp.alts[a] {
+				nc = append(nc, append(append([]lfact{}, c...), alt...))
+			}
+		}
+		combos = nc
+		if len(combos) > 256 {
+			return false
+		}
+	}
+	for _, c := range combos {
+		all := append(append([]lfact{}, base...), c...)
+		ok := false
+		for _, conj := range goals {
+			every := true
+			for _, g := range conj {
+				if !entails(all, g) {
+					every = false
+					break
+				}
+			}
+			if every {
+				ok = true
+				break
+			}
+		}
+		if !ok {
+			return false
+		}
+	}
+	return true
+}
+
 // trackedCell: an integer local whose address is taken but which no closure captures; its current value is
 // tracked along each path (a store drops what was known about the previous value).
 // Assumption: callees that receive the address (option structs) do not write through it.
